@@ -20,6 +20,7 @@ type hsConfig struct {
 	LZ     int         `json:"lz,omitempty"`     // number of leading zero bytes to force
 	Lie    *refsrv.Lie `json:"lie,omitempty"`
 	Retry  bool        `json:"retry,omitempty"` // after an abandoned exchange, connect the same client object again (server conformant by then)
+	Lie2   *refsrv.Lie `json:"lie2,omitempty"`  // ... unless it lies again, in its own way, during the second attempt
 }
 
 func leadingZeros(b []byte, width int) int {
@@ -83,6 +84,14 @@ func (r *runner) installHandshake(h *hsConfig) ev {
 	case "pq_small":
 		p.SetUint64(3)
 		q.SetUint64(5)
+	case "pq_62": // two primes of about 31.5 bits: pq between 2^62 and 2^63 - 1, the top of what the protocol allows
+		p.SetUint64(3037000453)
+		q.SetUint64(3037000493)
+	case "pq_63": // the two largest primes whose product is still below 2^63
+		p.SetUint64(3037000493)
+		q.SetUint64(3037000499)
+	case "gb_tiny": // the client draws a tiny exponent: g_b = 3^5
+		b.SetInt64(5)
 	}
 	pq := new(big.Int).Mul(p, q)
 	desc := ev{"corner": h.Corner, "lz": h.LZ}
@@ -160,6 +169,9 @@ func (r *runner) installHandshake(h *hsConfig) ev {
 // clearHandshakeForcing: from now on both sides draw their own values and the server is conformant
 func (r *runner) clearHandshakeForcing() {
 	r.srv.HS.Lie, r.srv.HS.ServerNonce, r.srv.HS.A, r.srv.HS.PQ = nil, nil, nil, nil
+	if r.sc.HS != nil {
+		r.srv.HS.Lie = r.sc.HS.Lie2
+	}
 	r.hsGate = nil
 	imath.VerifDraw = nil
 }
